@@ -10,7 +10,8 @@ Definition inv (run : list N) (s : st) : Prop :=
   NoDup (concat (insts s)) /\
   Permutation (concat (insts s)) (map eh (elems s) ++ run) /\
   (forall h, In h (concat (insts s)) -> h < nexth s) /\
-  Forall (fun e => thr_ok (ethr e)) (elems s).
+  Forall (fun e => env_ok (tenv (ethr e)) (nextr s)) (elems s) /\
+  heap_ok (heap s) (nextr s).
 
 Lemma wf_inv s : wf s <-> inv [] s.
 Proof. unfold wf, inv. now rewrite app_nil_r. Qed.
@@ -88,9 +89,15 @@ Proof.
     + apply Permutation_sym, Permutation_middle.
 Qed.
 
-(* ---------------------------------------------------------------- variables *)
-Definition env_ok (env : list (N * value)) (next : N) : Prop :=
-  forall x r, In (x, VArr r) env -> r < next.
+(* ---------------------------------------------------------------- variables, holders *)
+Lemma ref_lt_mono v n n' : n <= n' -> ref_lt v n -> ref_lt v n'.
+Proof. destruct v; cbn; intros; auto; lia. Qed.
+
+Lemma env_ok_mono env n n' : n <= n' -> env_ok env n -> env_ok env n'.
+Proof. intros Hle Hok x v Hin. eapply ref_lt_mono; eauto. Qed.
+
+Lemma heap_ok_mono hp n n' : n <= n' -> heap_ok hp n -> heap_ok hp n'.
+Proof. intros Hle Hok r k v Hin. eapply ref_lt_mono; eauto. Qed.
 
 Lemma in_env_set x v env y w : In (y, w) (env_set x v env) -> (y, w) = (x, v) \/ In (y, w) env.
 Proof.
@@ -101,24 +108,129 @@ Proof.
     + intros [H|H]; [right; now left|]. apply IH in H. tauto.
 Qed.
 
-Lemma env_set_ok x v env next :
-  env_ok env next -> (forall r, v = VArr r -> r < next) -> env_ok (env_set x v env) next.
+Lemma env_set_ok x v env n : env_ok env n -> ref_lt v n -> env_ok (env_set x v env) n.
 Proof.
-  intros Hok Hv y r Hin. apply in_env_set in Hin. destruct Hin as [E|Hin].
-  - inversion E; subst. now apply Hv.
+  intros Hok Hv y w Hin. apply in_env_set in Hin. destruct Hin as [E|Hin].
+  - inversion E; subst. exact Hv.
   - eapply Hok; eauto.
 Qed.
 
-Lemma env_get_in y env r : env_get y env = VArr r -> exists z, In (z, VArr r) env.
+Lemma env_get_ok y env n : env_ok env n -> ref_lt (env_get y env) n.
 Proof.
-  induction env as [|[z u] env IH]; cbn; [discriminate|].
+  intro Hok. induction env as [|[z u] env IH]; cbn; [exact I|].
   destruct (N.eqb y z).
-  - intros ->. exists z. now left.
-  - intro H. destruct (IH H) as [z' Hz]. exists z'. now right.
+  - apply (Hok z u). now left.
+  - apply IH. intros x v Hin. apply (Hok x v). now right.
 Qed.
 
-Lemma env_ok_mono env n n' : n <= n' -> env_ok env n -> env_ok env n'.
-Proof. intros Hle Hok x r Hin. apply Hok in Hin. lia. Qed.
+Definition hold_ok (o : holder) (n : N) : Prop := forall k v, In (k, v) o -> ref_lt v n.
+
+Lemma hold_get_ok k o n : hold_ok o n -> ref_lt (hold_get k o) n.
+Proof.
+  intro Hok. induction o as [|[j u] o IH]; cbn; [exact I|].
+  destruct (Z.eqb k j).
+  - apply (Hok j u). now left.
+  - apply IH. intros x v Hin. apply (Hok x v). now right.
+Qed.
+
+Lemma hold_put_ok k v o n : hold_ok o n -> ref_lt v n -> hold_ok (hold_put k v o) n.
+Proof.
+  intros Hok Hv. induction o as [|[j u] o IH]; cbn.
+  - intros x w [E|[]]. inversion E; subst. exact Hv.
+  - destruct (Z.eqb k j).
+    + intros x w [E|Hin]; [inversion E; subst; exact Hv|]. apply (Hok x w). now right.
+    + intros x w [E|Hin]; [apply (Hok x w); now left|].
+      apply (IH (fun a b H => Hok a b (or_intror H)) x w Hin).
+Qed.
+
+Lemma hold_remove_ok k o n : hold_ok o n -> hold_ok (hold_remove k o) n.
+Proof.
+  intros Hok. induction o as [|[j u] o IH]; cbn; [exact Hok|].
+  destruct (Z.eqb k j).
+  - intros x w Hin. apply (Hok x w). now right.
+  - intros x w [E|Hin]; [apply (Hok x w); now left|].
+    apply (IH (fun a b H => Hok a b (or_intror H)) x w Hin).
+Qed.
+
+Lemma hold_set_ok k v o n : hold_ok o n -> ref_lt v n -> hold_ok (hold_set k v o) n.
+Proof.
+  intros Hok Hv. unfold hold_set. destruct (is_nil v); [now apply hold_remove_ok | now apply hold_put_ok].
+Qed.
+
+Lemma heap_get_set r q o hp : heap_get q (heap_set r o hp) = if N.eqb q r then o else heap_get q hp.
+Proof.
+  induction hp as [|[p o'] hp IH]; cbn.
+  - destruct (N.eqb q r); reflexivity.
+  - destruct (N.eqb_spec r p) as [->|Hrp]; cbn.
+    + destruct (N.eqb q p); reflexivity.
+    + rewrite IH. destruct (N.eqb_spec q p) as [->|Hqp]; [|reflexivity].
+      destruct (N.eqb_spec p r); [congruence|reflexivity].
+Qed.
+
+Lemma heap_ok_set r o hp n : heap_ok hp n -> hold_ok o n -> heap_ok (heap_set r o hp) n.
+Proof.
+  intros Hh Ho q k v. rewrite heap_get_set. destruct (N.eqb q r); [apply Ho | apply Hh].
+Qed.
+
+Lemma heap_ok_alloc o hp n : heap_ok hp n -> hold_ok o (n + 1) -> heap_ok ((n, o) :: hp) (n + 1).
+Proof.
+  intros Hh Ho q k v. cbn. destruct (N.eqb q n); [apply Ho|].
+  intro Hin. eapply ref_lt_mono; [|eapply Hh; eauto]. lia.
+Qed.
+
+Lemma number_from_ok k l n : (forall v, In v l -> ref_lt v n) -> hold_ok (number_from k l) n.
+Proof.
+  revert k. induction l as [|v l IH]; intros k Hl; cbn; [intros ? ? []|].
+  intros j w [E|Hin]; [inversion E; subst; apply Hl; now left|].
+  eapply IH; [|exact Hin]. intros u Hu. apply Hl. now right.
+Qed.
+
+Lemma params_from_ok k l n : (forall v, In v l -> ref_lt v n) -> env_ok (params_from k l) n.
+Proof.
+  revert k. induction l as [|v l IH]; intros k Hl; cbn; [intros ? ? []|].
+  intros j w [E|Hin]; [inversion E; subst; apply Hl; now left|].
+  eapply IH; [|exact Hin]. intros u Hu. apply Hl. now right.
+Qed.
+
+(* the data part of the invariant *)
+Definition dinv (s : st) : Prop :=
+  Forall (fun e => env_ok (tenv (ethr e)) (nextr s)) (elems s) /\ heap_ok (heap s) (nextr s).
+
+Lemma dinv_alloc s o : dinv s -> hold_ok o (nextr s + 1) -> dinv (alloc s o).
+Proof.
+  intros [He Hh] Ho. split; cbn.
+  - eapply Forall_impl; [|exact He]. cbn. intros e H. eapply env_ok_mono; [|exact H]. lia.
+  - now apply heap_ok_alloc.
+Qed.
+
+Lemma store_elem_wf s env x k v :
+  dinv s -> env_ok env (nextr s) -> ref_lt v (nextr s) ->
+  let s' := fst (store_elem s env x k v) in
+  dinv s' /\ env_ok (snd (store_elem s env x k v)) (nextr s') /\ nextr s <= nextr s' /\
+  elems s' = elems s /\ insts s' = insts s /\ nexth s' = nexth s.
+Proof.
+  intros [He Hh] Henv Hv. unfold store_elem.
+  pose proof (env_get_ok x env _ Henv) as Hx.
+  destruct (env_get x env) as [[]|r|r]; cbn [fst snd].
+  - (* nil *) split; [|split; [|split; [cbn; lia|cbn; auto]]].
+    + apply dinv_alloc; [split; auto|]. apply hold_set_ok; [intros ? ? []|].
+      eapply ref_lt_mono; [|exact Hv]. lia.
+    + cbn. apply env_set_ok; [eapply env_ok_mono; [|exact Henv]; lia | cbn; lia].
+  - repeat split; auto; lia.
+  - repeat split; auto; lia.
+  - repeat split; auto; lia.
+  - repeat split; auto; lia.
+  - split; [|split; [|split; [cbn; lia|cbn; auto]]]; [|exact Henv].
+    split; cbn; [exact He|]. apply heap_ok_set; auto. apply hold_set_ok; auto. intros j w. apply Hh.
+  - destruct (hold_mem k (heap_get r (heap s))); [|repeat split; auto; lia].
+    split; [|split; [|split; [cbn; lia|cbn; auto]]]; [|exact Henv].
+    split; cbn; [exact He|]. apply heap_ok_set; auto. apply hold_put_ok; auto. intros j w. apply Hh.
+Qed.
+
+Lemma load_elem_ok s env x k : dinv s -> env_ok env (nextr s) -> ref_lt (load_elem s env x k) (nextr s).
+Proof.
+  intros [_ Hh] Henv. unfold load_elem. destruct (env_get x env); [exact I| |]; apply hold_get_ok; intros j w; apply Hh.
+Qed.
 
 (* ---------------------------------------------------------------- running a thread *)
 Lemma psize_pos p : (1 <= psize p)%nat.
@@ -126,19 +238,28 @@ Proof. destruct p as [|[] p]; cbn; lia. Qed.
 
 Definition code_wf (n : nat) : Prop :=
   forall p, (psize p <= n)%nat ->
-  forall s h env heap next log run,
-    inv (h :: run) s -> env_ok env next ->
-    inv run (fst (run_code p s h env heap next log)).
+  forall s h env log run,
+    inv (h :: run) s -> env_ok env (nextr s) ->
+    inv run (fst (run_code p s h env log)) /\ nextr s <= nextr (fst (run_code p s h env log)).
+
+Lemma inv_data run s s' :
+  inv run s -> dinv s' -> elems s' = elems s -> insts s' = insts s -> nexth s' = nexth s -> inv run s'.
+Proof.
+  intros (Hnd & Hp & Hb & _ & _) [He Hh] E1 E2 E3. unfold inv. rewrite E1, E2, E3.
+  rewrite E1 in He. repeat split; auto.
+Qed.
 
 Lemma run_code_wf_n : forall n, code_wf n.
 Proof.
   induction n as [|n IHn]; intros p Hsz.
   { pose proof (psize_pos p). lia. }
-  intros s h env heap next log run (Hnd & Hp & Hb & Hok) Henv.
+  intros s h env log run Hinv Henv.
+  pose proof Hinv as (Hnd & Hp & Hb & Hok & Hhp).
+  assert (Hd : dinv s) by (split; auto).
   assert (HndE : NoDup (map eh (elems s) ++ h :: run)) by (eapply Permutation_NoDup; eauto).
   destruct p as [|i p'].
   { (* the thread ends *)
-    cbn. unfold inv. cbn. rewrite concat_end_in. split; [|split; [|split]].
+    cbn. split; [|lia]. unfold inv. cbn. rewrite concat_end_in. split; [|split; [|split; [|split]]].
     - now apply remove_h_nodup.
     - eapply perm_trans; [apply remove_h_perm; exact Hp|].
       rewrite remove_h_app. cbn. rewrite N.eqb_refl.
@@ -146,53 +267,70 @@ Proof.
       + apply NoDup_remove_2 in HndE. intro H. apply HndE. apply in_or_app. now right.
       + apply NoDup_remove_2 in HndE. intro H. apply HndE. apply in_or_app. now left.
     - intros x Hx. apply remove_h_in in Hx. now apply Hb.
-    - exact Hok. }
-  destruct i as [m|d|x v|x k v|x y|x|x k|q]; cbn in Hsz.
-  - cbn. apply IHn; [lia| |exact Henv]. repeat split; auto.
+    - exact Hok.
+    - exact Hhp. }
+  destruct i as [m|d|x v|x k v|x k y|y x k|x y|x l|x|x k|args q]; cbn in Hsz.
+  - cbn. apply IHn; [lia|exact Hinv|exact Henv].
   - (* wait *)
-    cbn. unfold inv. cbn. split; [exact Hnd|]. split; [|split].
+    cbn. split; [|lia]. unfold inv. cbn. split; [exact Hnd|]. split; [|split; [|split]].
     + rewrite map_app. cbn. rewrite <- app_assoc. exact Hp.
     + exact Hb.
     + apply Forall_app. split; [exact Hok|]. constructor; [|constructor]. exact Henv.
-  - cbn. apply IHn; [lia| repeat split; auto |]. apply env_set_ok; auto. discriminate.
-  - cbn. destruct (env_get x env) as [[]|r] eqn:E.
-    + apply IHn; [lia| repeat split; auto |]. apply env_set_ok.
-      * eapply env_ok_mono; [|exact Henv]. lia.
-      * intros r Hr. inversion Hr. lia.
-    + apply IHn; [lia| repeat split; auto | exact Henv].
-    + apply IHn; [lia| repeat split; auto | exact Henv].
-    + apply IHn; [lia| repeat split; auto | exact Henv].
-    + apply IHn; [lia| repeat split; auto | exact Henv].
-    + apply IHn; [lia| repeat split; auto | exact Henv].
-  - cbn. apply IHn; [lia| repeat split; auto |]. apply env_set_ok; auto.
-    intros r Hr. destruct (env_get_in _ _ _ Hr) as [z Hz]. eapply Henv; eauto.
-  - cbn. apply IHn; [lia| repeat split; auto | exact Henv].
-  - cbn. destruct (env_get x env); apply IHn; try lia; try exact Henv; repeat split; auto.
+    + exact Hhp.
+  - cbn. apply IHn; [lia|exact Hinv|]. apply env_set_ok; auto. exact I.
+  - cbn. pose proof (store_elem_wf s env x k (VScal v) Hd Henv I) as (Hd' & He' & Hle & E1 & E2 & E3).
+    destruct (store_elem s env x k (VScal v)) as [s1 env1]. cbn in *.
+    destruct (IHn p' ltac:(lia) s1 h env1 log run) as [H1 H2]; [eapply inv_data; eauto|exact He'|].
+    split; [exact H1|lia].
+  - cbn. pose proof (store_elem_wf s env x k (env_get y env) Hd Henv (env_get_ok y env _ Henv)) as (Hd' & He' & Hle & E1 & E2 & E3).
+    destruct (store_elem s env x k (env_get y env)) as [s1 env1]. cbn in *.
+    destruct (IHn p' ltac:(lia) s1 h env1 log run) as [H1 H2]; [eapply inv_data; eauto|exact He'|].
+    split; [exact H1|lia].
+  - cbn. apply IHn; [lia|exact Hinv|]. apply env_set_ok; auto. now apply load_elem_ok.
+  - cbn. apply IHn; [lia|exact Hinv|]. apply env_set_ok; auto. now apply env_get_ok.
+  - (* local.x = c1::c2 *)
+    cbn.
+    assert (Hd' : dinv (alloc s (number_from 1 (map (cval_get env) l)))).
+    { apply dinv_alloc; auto. apply number_from_ok. intros v Hin. apply in_map_iff in Hin.
+      destruct Hin as ([sc|y] & <- & _); cbn; [exact I|].
+      eapply ref_lt_mono; [|apply env_get_ok; exact Henv]. lia. }
+    destruct (IHn p' ltac:(lia) (alloc s (number_from 1 (map (cval_get env) l))) h
+                  (env_set x (VCon (nextr s)) env) log run) as [H1 H2].
+    + eapply inv_data; eauto.
+    + cbn. apply env_set_ok; [eapply env_ok_mono; [|exact Henv]; lia | cbn; lia].
+    + split; [exact H1|]. cbn in H2. lia.
+  - cbn. apply IHn; [lia|exact Hinv|exact Henv].
+  - cbn. apply IHn; [lia|exact Hinv|exact Henv].
   - (* thread q *)
     cbn.
-    set (s1 := mkSt (elems s) (spawn_in h (nexth s) (insts s)) (mtime s) (dirty s) (scaled s)
-                    (lastclk s) (startclk s) (clock s) (nexth s + 1)).
+    set (s1 := mkSt (elems s) (spawn_in h (nexth s) (insts s)) (heap s) (mtime s) (dirty s) (scaled s)
+                    (lastclk s) (startclk s) (clock s) (nexth s + 1) (nextr s)).
     assert (Hh : In h (concat (insts s))).
     { eapply Permutation_in; [apply Permutation_sym; exact Hp|]. apply in_or_app. right. now left. }
     pose proof (spawn_concat h (nexth s) (insts s) Hnd Hh) as Hsp.
     assert (Hfresh : ~ In (nexth s) (concat (insts s))).
     { intro H. apply Hb in H. lia. }
     assert (Hinv1 : inv (nexth s :: h :: run) s1).
-    { unfold inv, s1. cbn. split; [|split; [|split]].
+    { unfold inv, s1. cbn. split; [|split; [|split; [|split]]].
       - eapply Permutation_NoDup; [apply Permutation_sym; exact Hsp|]. constructor; auto.
       - eapply perm_trans; [exact Hsp|]. eapply perm_trans; [apply perm_skip; exact Hp|].
         apply Permutation_middle.
       - intros x Hx. eapply Permutation_in in Hx; [|exact Hsp]. destruct Hx as [<-|Hx]; [lia|].
         apply Hb in Hx. lia.
-      - exact Hok. }
+      - exact Hok.
+      - exact Hhp. }
     assert (Hq : (psize q <= n)%nat) by lia.
-    pose proof (IHn q Hq s1 (nexth s) [] [] 1 log (h :: run) Hinv1) as H2.
-    destruct (run_code q s1 (nexth s) [] [] 1 log) as [s2 log2]. cbn in H2.
-    apply IHn; [lia| |exact Henv]. apply H2. intros ? ? [].
+    destruct (IHn q Hq s1 (nexth s) (params_from 101 (map (fun y => env_get y env) args)) log (h :: run) Hinv1) as [H2 H2'].
+    { apply params_from_ok. intros v Hin. apply in_map_iff in Hin. destruct Hin as (y & <- & _).
+      now apply env_get_ok. }
+    destruct (run_code q s1 (nexth s) _ log) as [s2 log2]. cbn in H2, H2'.
+    destruct (IHn p' ltac:(lia) s2 h env log2 run H2) as [H3 H3'].
+    { eapply env_ok_mono; [|exact Henv]. exact H2'. }
+    split; [exact H3|]. unfold s1 in H2'. cbn in H2'. lia.
 Qed.
 
 Lemma run_thread_wf s t log run :
-  inv (th t :: run) s -> thr_ok t -> inv run (fst (run_thread s t log)).
+  inv (th t :: run) s -> env_ok (tenv t) (nextr s) -> inv run (fst (run_thread s t log)).
 Proof. intros Hi Hok. unfold run_thread. apply (run_code_wf_n (psize (tcode t))); auto. Qed.
 
 (* ---------------------------------------------------------------- the timer *)
@@ -221,9 +359,9 @@ Proof.
 Qed.
 
 Lemma get_next_wf s e s1 :
-  inv [] s -> get_next s = Some (e, s1) -> inv [eh e] s1 /\ thr_ok (ethr e).
+  inv [] s -> get_next s = Some (e, s1) -> inv [eh e] s1 /\ env_ok (tenv (ethr e)) (nextr s1).
 Proof.
-  intros (Hnd & Hp & Hb & Hok) Hg. unfold get_next in Hg.
+  intros (Hnd & Hp & Hb & Hok & Hhp) Hg. unfold get_next in Hg.
   destruct (scan _ _ _ _) as [i|] eqn:Es; [|discriminate].
   destruct (nth_error (elems s) (pred i)) as [e'|] eqn:En; [|discriminate].
   inversion Hg; subst e' s1. clear Hg.
@@ -231,12 +369,13 @@ Proof.
   destruct Es as [E|[Hi _]]; [discriminate|].
   pose proof (remove_at_perm _ _ _ Hi En) as Hperm.
   split.
-  - unfold inv. cbn. split; [exact Hnd|]. split; [|split].
+  - unfold inv. cbn. split; [exact Hnd|]. split; [|split; [|split]].
     + rewrite app_nil_r in Hp. eapply perm_trans; [exact Hp|].
       change ([eh e]) with (map eh [e]). rewrite <- map_app. now apply Permutation_map.
     + exact Hb.
     + rewrite Forall_forall in *. intros x Hx. apply Hok. eapply remove_at_incl; eauto.
-  - rewrite Forall_forall in Hok. apply Hok. eapply nth_error_In; eauto.
+    + exact Hhp.
+  - cbn. rewrite Forall_forall in Hok. apply Hok. eapply nth_error_In; eauto.
 Qed.
 
 Lemma exec_loop_wf fuel : forall s log s' log',
@@ -262,28 +401,33 @@ Qed.
 Theorem step_wf s o s' ob : wf s -> step s o = Some (s', ob) -> wf s'.
 Proof.
   rewrite !wf_inv. intros Hi Hs. destruct o as [p|dt|]; cbn [step] in Hs.
-  - set (s0 := mkSt (elems s) ([nexth s] :: insts s) (mtime s) (dirty s) (scaled s) (lastclk s)
-                    (startclk s) (clock s) (nexth s + 1)) in *.
+  - set (s0 := mkSt (elems s) ([nexth s] :: insts s) (heap s) (mtime s) (dirty s) (scaled s) (lastclk s)
+                    (startclk s) (clock s) (nexth s + 1) (nextr s)) in *.
     assert (Hi0 : inv [nexth s] s0).
-    { destruct Hi as (Hnd & Hp & Hb & Hok). unfold inv, s0. cbn. split; [|split; [|split]].
+    { destruct Hi as (Hnd & Hp & Hb & Hok & Hhp). unfold inv, s0. cbn. split; [|split; [|split; [|split]]].
       - constructor; auto. intro H. apply Hb in H. lia.
       - rewrite app_nil_r in Hp. eapply perm_trans; [apply perm_skip; exact Hp|].
         apply Permutation_cons_append.
       - intros h [<-|H]; [lia|]. apply Hb in H. lia.
-      - exact Hok. }
-    pose proof (run_code_wf_n (psize p) p (le_n _) s0 (nexth s) [] [] 1 [] [] Hi0) as H1.
-    destruct (run_code p s0 (nexth s) [] [] 1 []) as [s1 log]. cbn in H1.
+      - exact Hok.
+      - exact Hhp. }
+    destruct (run_code_wf_n (psize p) p (le_n _) s0 (nexth s) [] [] [] Hi0) as [H1 _].
+    { intros ? ? []. }
+    destruct (run_code p s0 (nexth s) [] []) as [s1 log]. cbn in H1.
     destruct (execute_running (weight s1) s1 log) as [[s2 log2]|] eqn:Ee; [|discriminate].
-    inversion Hs; subst. eapply execute_running_wf; [|exact Ee]. apply H1. intros ? ? [].
-  - inversion Hs; subst. destruct Hi as (Hnd & Hp & Hb & Hok). repeat split; auto.
+    inversion Hs; subst. eapply execute_running_wf; [|exact Ee]. exact H1.
+  - inversion Hs; subst. destruct Hi as (Hnd & Hp & Hb & Hok & Hhp). unfold inv. cbn. tauto.
   - match type of Hs with context [execute_running ?f ?x []] => destruct (execute_running f x []) as [[s2 log2]|] eqn:Ee end;
       [|discriminate].
     inversion Hs; subst. eapply execute_running_wf; [|exact Ee].
-    destruct Hi as (Hnd & Hp & Hb & Hok). repeat split; auto.
+    destruct Hi as (Hnd & Hp & Hb & Hok & Hhp). unfold inv. cbn. tauto.
 Qed.
 
 Lemma wf_init c : wf (init c).
-Proof. unfold wf, init. cbn. repeat split; try constructor. intros h []. Qed.
+Proof.
+  unfold wf, init. cbn. split; [constructor|]. split; [constructor|]. split; [intros h []|].
+  split; [constructor|]. intros r k v [].
+Qed.
 
 Theorem reach_wf s ops s' : wf s -> state_after s ops = Some s' -> wf s'.
 Proof.
